@@ -30,17 +30,25 @@ import (
 )
 
 type scase struct {
-	Gateway string `json:"gateway"` // open | keys
+	Gateway string `json:"gateway"` // open | keys | missing (an authorized keys file is configured but does not exist)
 	SSHAuth string `json:"ssh_auth"` // none | goodkey | badkey
 	Token   string `json:"token"`    // right | wrong | none
 }
 
 func (c scase) mayBeAdmitted() bool {
-	if c.Gateway == "keys" {
+	switch c.Gateway {
+	case "keys":
 		return c.SSHAuth == "goodkey"
+	case "missing":
+		// nobody can prove an authorized key; a peer that proves the token may or may not be served (mustBeAdmitted is
+		// false), everybody else must not
+		return c.Token == "right"
 	}
 	return c.Token == "right"
 }
+
+// mustBeAdmitted: the positive controls (a peer with a valid credential is served), needed for non-vacuity only.
+func (c scase) mustBeAdmitted() bool { return c.Gateway != "missing" && c.mayBeAdmitted() }
 
 func newKey() (ssh.Signer, ssh.PublicKey) {
 	pub, priv, _ := ed25519.GenerateKey(rand.Reader)
@@ -70,6 +78,9 @@ func run(sc scase) (viol, inconclusive string) {
 	srv, err := rw.StartServer(func(s *v1.ServerConfig) {
 		s.SSHTunnelGateway.BindPort = gwPort
 		s.SSHTunnelGateway.AutoGenPrivateKeyPath = filepath.Join(dir, "host_key")
+		if sc.Gateway == "missing" {
+			s.SSHTunnelGateway.AuthorizedKeysFile = filepath.Join(dir, "no-such-authorized_keys")
+		}
 		if sc.Gateway == "keys" {
 			f := filepath.Join(dir, "authorized_keys")
 			line := ssh.MarshalAuthorizedKey(goodPub)
@@ -112,7 +123,7 @@ func run(sc scase) (viol, inconclusive string) {
 		if admitted(500 * time.Millisecond) {
 			return fmt.Sprintf("ssh gateway (%s): the ssh handshake of a peer with credential %q failed, yet frps holds %d session(s) / %d proxies", sc.Gateway, sc.SSHAuth, sessions(), proxies()), ""
 		}
-		if sc.mayBeAdmitted() {
+		if sc.mustBeAdmitted() {
 			return "", "ssh handshake failed for a peer that should be let in: " + err.Error()
 		}
 		return "", ""
@@ -147,10 +158,13 @@ func run(sc scase) (viol, inconclusive string) {
 			}
 		}
 	}()
-	if sc.mayBeAdmitted() {
+	if sc.mustBeAdmitted() {
 		if !admitted(10 * time.Second) {
 			return "", "a peer with a valid credential got no session within 10 s"
 		}
+		return "", ""
+	}
+	if sc.mayBeAdmitted() {
 		return "", ""
 	}
 	if admitted(2500 * time.Millisecond) {
@@ -170,10 +184,10 @@ func main() {
 	if c == nil {
 		return
 	}
-	c.Rule("real frps with the ssh tunnel gateway on loopback and a real ssh client: complete product gateway {no authorized keys, authorized keys file} x ssh credential {none, authorized key, unknown key} x token in the tunnel command {right, wrong, none}; a client session, proxy or public port appears only for a peer that proved the token or an authorized key; non-trivial = distinct case")
+	c.Rule("real frps with the ssh tunnel gateway on loopback and a real ssh client: complete product gateway {no authorized keys, authorized keys file, authorized keys file configured but missing} x ssh credential {none, authorized key, unknown key} x token in the tunnel command {right, wrong, none}; a client session, proxy or public port appears only for a peer that proved the token or an authorized key; non-trivial = distinct case")
 	c.Assume("absence is judged 2.5 s after the tunnel command was accepted by the gateway (the gateway itself gives up after 1 s); a peer with a valid credential that is not served within 10 s makes the case inconclusive, not a violation")
 	var cases []scase
-	for _, g := range []string{"open", "keys"} {
+	for _, g := range []string{"open", "keys", "missing"} {
 		for _, a := range []string{"none", "goodkey", "badkey"} {
 			for _, t := range []string{"right", "wrong", "none"} {
 				cases = append(cases, scase{g, a, t})
@@ -202,7 +216,7 @@ func main() {
 			continue
 		}
 		c.Count(fmt.Sprintf("sshgw:%+v", sc))
-		if sc.mayBeAdmitted() {
+		if sc.mustBeAdmitted() {
 			admittedCases++
 		}
 		if res[i].v != "" {
